@@ -244,7 +244,8 @@ class Extractor:
         """Option::map(opt, |x| ..) with a small local closure: None stays None, Some(x) continues inside the closure"""
         body, it = fr.body, fr.it
         t = body.blocks[bi]["term"]
-        if norm_name(t["callee"].get("pretty")) != "core::option::Option::map" or t.get("t") is None or fr.depth >= self.inline_depth:
+        cname = norm_name(t["callee"].get("pretty"))
+        if cname not in ("core::option::Option::map", "core::option::Option::and_then") or t.get("t") is None or fr.depth >= self.inline_depth:
             return False
         it.cur = (bi, len(body.blocks[bi]["stmts"]))
         it.counter = 0
@@ -282,7 +283,9 @@ class Extractor:
             else:
                 S2.write((cit.L(1), ()), clo)
             S2.write((cit.L(2), ()), project(opt, (("dc", 1, "Some"), ("f", 0, "0"))))
-            nfr = Frame(cb, cit, (fr, bi, used, exiting, res), fr.depth + 1, wrap=lambda v: ("agg", "core::option::Option", 1, (v,)))
+            # map wraps the closure's result in Some; and_then hands the closure's own Option back
+            nfr = Frame(cb, cit, (fr, bi, used, exiting, res), fr.depth + 1,
+                        wrap=(lambda v: ("agg", "core::option::Option", 1, (v,))) if cname.endswith("::map") else None)
             self._dfs(nfr, 0, toks + tk, {}, frozenset(), res, S2)
             self.body, self.it = fr.body, fr.it
         return True
